@@ -502,9 +502,86 @@ def _member_direction(ctx) -> list[Inst]:
     return out
 
 
+def _nearest_wins(ctx) -> list[Inst]:
+    """SHADOW  a lookup that walks UP the inheritance chain (a loop whose step is `x = <..>['superAsset']` /
+    `.super_assets`) answers with the NEAREST definition: once a match is stored the walk ends (break / return / the
+    loop test mentions the result) or later matches do not overwrite it (`if r is None`).  A walk that goes on and
+    overwrites returns the root-most definition - a sub type can no longer shadow what it inherits."""
+    out = []
+    for f in ctx.prog.all_funcs():
+        if f.module.generated:
+            continue
+        rel = f.module.relpath
+        for lp in own_nodes(f.node):
+            if not isinstance(lp, ast.While):
+                continue
+            step = None
+            for n in ast.walk(lp):
+                if isinstance(n, ast.Assign) and len(n.targets) == 1 and isinstance(n.targets[0], ast.Name) and (
+                        (isinstance(n.value, ast.Subscript) and isinstance(n.value.slice, ast.Constant)
+                         and n.value.slice.value == 'superAsset') or
+                        (isinstance(n.value, ast.Attribute) and n.value.attr in ('super_asset', 'superAsset'))):
+                    step = n
+            if step is None:
+                continue
+            walker = step.targets[0].id
+            test_names = {x.id for x in ast.walk(lp.test) if isinstance(x, ast.Name)}
+            if walker not in test_names:
+                continue
+            parent = {}
+            for x in ast.walk(lp):
+                for ch in ast.iter_child_nodes(x):
+                    parent[id(ch)] = x
+            for n in ast.walk(lp):
+                if not (isinstance(n, ast.Assign) and len(n.targets) == 1 and isinstance(n.targets[0], ast.Name)):
+                    continue
+                r = n.targets[0].id
+                if r == walker or n is step:
+                    continue
+                # r must be a result: read after the loop
+                after = False
+                seen_lp = False
+                for st in ast.walk(f.node):
+                    pass
+                used_after = any(isinstance(x, ast.Name) and x.id == r and isinstance(x.ctx, ast.Load)
+                                 and getattr(x, 'lineno', 0) > getattr(lp, 'end_lineno', 0) for x in ast.walk(f.node))
+                if not used_after:
+                    continue
+                # stored under a match test inside the loop?
+                cur, guard = parent.get(id(n)), None
+                in_inner_loop = False
+                while cur is not None and cur is not lp:
+                    if isinstance(cur, ast.If) and guard is None:
+                        guard = cur
+                    if isinstance(cur, (ast.For, ast.While)):
+                        in_inner_loop = True
+                    cur = parent.get(id(cur))
+                if guard is None:
+                    continue
+                gnames = {x.id for x in ast.walk(guard.test) if isinstance(x, ast.Name)}
+                if r in gnames or r in test_names:
+                    continue            # `if r is None and ..` / `while cur and r is None`: the first match is kept
+                # does the walk end after the store?  (break out of the WHILE, or return)
+                blk = guard.body
+                ends = any(isinstance(x, ast.Return) for st in blk for x in ast.walk(st)) or \
+                    (not in_inner_loop and any(isinstance(x, ast.Break) for st in blk for x in ast.walk(st)))
+                if ends:
+                    continue
+                construct = f"SHADOW: the walk up the inheritance chain stops at the first match of '{r}'"
+                props = tuple(dict.fromkeys(tuple(props_for(f.short, rel) or ()) + ('C15', 'C01')))
+                out.append(Inst(
+                    RULE, f.short, construct, 'violation',
+                    msg=(f"'{stmt_text(n, 60)}' is stored for every match while '{walker}' keeps climbing "
+                         f"('{stmt_text(step, 50)}'): the definition of the most distant ancestor overwrites the nearer "
+                         f"ones, a sub type's own definition no longer shadows the inherited one"),
+                    file=rel, line=n.lineno, props=props))
+    return out
+
+
 def run(ctx) -> list[Inst]:
     prog = ctx.prog
     insts = _closure_functions(ctx)
+    insts += _nearest_wins(ctx)
     insts += _closure_pass(ctx)
     insts += _member_direction(ctx)
     insts += _build_order(ctx)
